@@ -1,7 +1,9 @@
 import PewProofs.Register
+import PewProofs.RegisterFast
 import PewTheorems.C11
 
-/-! # C12 — property theorems (statements only depend on `PewModel.Register` / `PewModel.Overlap`)
+/-! # C12 — property theorems (statements only depend on `PewModel.Register` / `PewModel.RegisterFast` /
+`PewModel.Overlap`)
 
 All correlation theorems are stated and proved for **every number of dimensions**: `circ` and `lin`
 are nested sums over the axis list, the one-axis facts (no wrap-around with `s = a + b − 1`,
@@ -372,5 +374,89 @@ theorem merge_normalised_reproduces_scene (m : Mode) (hm : m ≠ .sum) (fill : V
   exact this
 
 end merge
+
+/-! ## the array twin of the driver (`PewModel.RegisterFast`) equals the model
+
+`PewDriver.C12` parses an image into the pair `(mkImg shape data, toFImg shape data)` and, for long
+axes, evaluates `fastLin` / `fastCirc` / `peakOfTable` / `registerOf` on the integer arrays instead of
+`xcorr` / `xcorrCirc` / `peak` / `register` on the model image.  The theorems below hold for **every
+number of dimensions, every shape (zero extents included), every data list (whatever its length:
+both sides read a missing entry as 0) and every lag / index vector (in or out of the box, of any
+length)**; the only hypothesis is that the two shapes have the same number of axes (which the driver
+checks before it evaluates anything). -/
+
+/-- **`fastLin` is `xcorr`**: the integer-array evaluation of the linear cross-correlation (common
+denominator, common factor taken out, flat strided reads, loop over the overlap only) is the
+model's cross-correlation at every lag -/
+theorem fastLin_eq_xcorr (sa sb : List Nat) (da db : List Rat) (h : sa.length = sb.length) (l : List Int) :
+    fastLin (toFImg sa da) (toFImg sb db) l = xcorr (mkImg sa da) (mkImg sb db) l := by
+  simp only [fastLin, xcorr, mkImg, axesOf_toFImg, linGo_eq sa sb h, mkGet_eq, zext_smul, lin_smul]
+
+/-- **`fastCirc` is `xcorrCirc`**: the integer-array evaluation of the circular correlation of the
+zero padded images (the zero terms `n ∉ box b`, `(n + k) mod s ∉ box a` skipped) is the model's
+padded correlation array at every index vector -/
+theorem fastCirc_eq_xcorrCirc (sa sb : List Nat) (da db : List Rat) (h : sa.length = sb.length) (k : List Nat) :
+    fastCirc (toFImg sa da) (toFImg sb db) k = xcorrCirc (mkImg sa da) (mkImg sb db) k := by
+  simp only [fastCirc, xcorrCirc, mkImg, axesOf_toFImg, circGo_eq sa sb h, mkGet_eq, padN_smul, circ_smul]
+
+/-- the whole table of correlation values over the lag box, in the row-major order in which the
+driver builds it (`c12.registerLong`: `table`), is the model's table -/
+theorem fastLin_table_eq (sa sb : List Nat) (da db : List Rat) (h : sa.length = sb.length) :
+    (lags sa sb).map (fun l => (l, fastLin (toFImg sa da) (toFImg sb db) l))
+      = (lags (mkImg sa da).shape (mkImg sb db).shape).map (fun l => (l, xcorr (mkImg sa da) (mkImg sb db) l)) := by
+  simp only [fastLin_eq_xcorr sa sb da db h, mkImg]
+
+/-- the whole circular correlation array in row-major order is the model's -/
+theorem fastCirc_table_eq (sa sb : List Nat) (da db : List Rat) (h : sa.length = sb.length) :
+    (allIdx (padShape sa sb)).map (fastCirc (toFImg sa da) (toFImg sb db))
+      = (allIdx (padShape sa sb)).map (xcorrCirc (mkImg sa da) (mkImg sb db)) := by
+  rw [funext (fastCirc_eq_xcorrCirc sa sb da db h)]
+
+/-- `peak` is `peakOfTable` of the model's table (definitional) -/
+theorem peak_eq_peakOfTable (a b : Img) :
+    peak a b = peakOfTable ((lags a.shape b.shape).map (fun l => (l, xcorr a b l))) := rfl
+
+/-- **maximum, its lag (first in row-major order) and runner-up** computed from the twin's table
+(what `c12.registerLong` reports as `lag`, `max`, `runner`) are those of the model's `peak` -/
+theorem peakOfTable_fast_eq_peak (sa sb : List Nat) (da db : List Rat) (h : sa.length = sb.length) :
+    peakOfTable ((lags sa sb).map (fun l => (l, fastLin (toFImg sa da) (toFImg sb db) l)))
+      = peak (mkImg sa da) (mkImg sb db) := by
+  rw [fastLin_table_eq sa sb da db h, peak_eq_peakOfTable]
+
+/-- the same through `peakOf` (what `c12.register` compares with the model at run time) -/
+theorem peakOf_fast_eq_peak (sa sb : List Nat) (da db : List Rat) (h : sa.length = sb.length) :
+    peakOf (fastLin (toFImg sa da) (toFImg sb db)) (lags sa sb) = peak (mkImg sa da) (mkImg sb db) :=
+  peakOfTable_fast_eq_peak sa sb da db h
+
+/-- **the mechanism's answer computed from the twin** (first maximum of the circular array in
+row-major order, decoded; what `c12.registerLong` reports as `model`) is the model's `register` -/
+theorem registerOf_fast_eq_register (sa sb : List Nat) (da db : List Rat) (h : sa.length = sb.length) :
+    registerOf (fastCirc (toFImg sa da) (toFImg sb db)) sa sb = register (mkImg sa da) (mkImg sb db) := by
+  have e : fastCirc (toFImg sa da) (toFImg sb db) = xcorrCirc (mkImg sa da) (mkImg sb db) :=
+    funext (fastCirc_eq_xcorrCirc sa sb da db h)
+  rw [e]
+  rfl
+
+/-- end to end on the twin: a unique maximum of the twin's linear correlation over the lag box is
+what the twin's mechanism returns (`register_argmax` carried over; shapes positive as there) -/
+theorem registerOf_fast_argmax (sa sb : List Nat) (da db : List Rat) (l : List Int)
+    (hpa : ∀ x ∈ sa, 0 < x) (hpb : ∀ x ∈ sb, 0 < x) (hl : inLagBox sa sb l = true)
+    (huniq : ∀ l', inLagBox sa sb l' = true → l' ≠ l →
+      fastLin (toFImg sa da) (toFImg sb db) l' < fastLin (toFImg sa da) (toFImg sb db) l) :
+    registerOf (fastCirc (toFImg sa da) (toFImg sb db)) sa sb = l := by
+  have h := inLagBox_length _ _ _ hl
+  rw [registerOf_fast_eq_register sa sb da db h]
+  apply register_argmax (mkImg sa da) (mkImg sb db) l hpa hpb hl
+  intro l' hl' hne
+  rw [← fastLin_eq_xcorr sa sb da db h, ← fastLin_eq_xcorr sa sb da db h]
+  exact huniq l' hl' hne
+
+/-- non-vacuity / the twin really computes: a 2-D pair with non-integer entries (common denominator 6,
+common factor 1 resp. 2) at a lag with partial overlap, both routes -/
+example : fastLin (toFImg [2, 2] [1, 1/2, 3, -2/3]) (toFImg [1, 2] [4, 2]) [1, -1] = 6
+    ∧ xcorr (mkImg [2, 2] [1, 1/2, 3, -2/3]) (mkImg [1, 2] [4, 2]) [1, -1] = 6 := by decide +kernel
+
+example : fastCirc (toFImg [2, 2] [1, 1/2, 3, -2/3]) (toFImg [1, 2] [4, 2]) [1, 2] = 6
+    ∧ xcorrCirc (mkImg [2, 2] [1, 1/2, 3, -2/3]) (mkImg [1, 2] [4, 2]) [1, 2] = 6 := by decide +kernel
 
 end Pew.Register
